@@ -146,6 +146,60 @@ theorem keyouts_complete (customs : List (List CAct)) (slot : Nat) (a : Action) 
     (h : x ∈ possibleOutputs customs slot a) : x ∈ keyOutputs customs slot a :=
   add_complete customs slot a [] x h
 
+/-! ### ... and with global overrides in the configuration -/
+
+theorem mem_addKc_self (outs : List Nat) (kc : Nat) : kc ∈ addKc outs kc := by
+  unfold addKc; split <;> simp_all
+
+theorem mem_addKc_mono (outs : List Nat) (kc x : Nat) (h : x ∈ outs) : x ∈ addKc outs kc := by
+  unfold addKc; split <;> simp_all
+
+theorem mem_foldl_addKc (ks : List Nat) : ∀ (outs : List Nat) (x : Nat), x ∈ outs ∨ x ∈ ks → x ∈ ks.foldl addKc outs := by
+  induction ks with
+  | nil => intro outs x h; simpa using h
+  | cons k rest ih =>
+    intro outs x h
+    simp only [List.foldl_cons]
+    apply ih
+    rcases h with h | h
+    · exact Or.inl (mem_addKc_mono _ _ _ h)
+    · rcases List.mem_cons.mp h with h | h
+      · subst h; exact Or.inl (mem_addKc_self _ _)
+      · exact Or.inr h
+
+theorem withOverrides_go (t : Override.Overrides) (base : List Nat) : ∀ (acc : List Nat) (x : Nat),
+    (x ∈ acc ∨ x ∈ base ∨ ∃ c ∈ base, x ∈ overrideOuts t c) →
+    x ∈ base.foldl (fun outs c => (overrideOuts t c).foldl addKc (addKc outs c)) acc := by
+  induction base with
+  | nil => intro acc x h; rcases h with h | h | ⟨c, hc, _⟩ <;> simp_all
+  | cons b rest ih =>
+    intro acc x h
+    simp only [List.foldl_cons]
+    apply ih
+    rcases h with h | h | ⟨c, hc, hx⟩
+    · exact Or.inl (mem_foldl_addKc _ _ _ (Or.inl (mem_addKc_mono _ _ _ h)))
+    · rcases List.mem_cons.mp h with h | h
+      · subst h; exact Or.inl (mem_foldl_addKc _ _ _ (Or.inl (mem_addKc_self _ _)))
+      · exact Or.inr (Or.inl h)
+    · rcases List.mem_cons.mp hc with hc | hc
+      · subst hc; exact Or.inl (mem_foldl_addKc _ _ _ (Or.inr hx))
+      · exact Or.inr (Or.inr ⟨c, hc, hx⟩)
+
+/-- **keyouts_complete_with_overrides** (full): with a `defoverrides` table the entry of a physical key
+holds every key code of a key-producing leaf of its action AND the output key of every override
+whose input key is such a key code - whatever the physical key is called (the table is what the
+repeat logic consults, so a missing entry means a dropped repeat). -/
+theorem keyouts_complete_with_overrides (t : Override.Overrides) (customs : List (List CAct)) (slot : Nat)
+    (a : Action) (x : Nat) (h : x ∈ possibleOutputs customs slot a) :
+    x ∈ withOverrides t (keyOutputs customs slot a) ∧
+    ∀ o ∈ overrideOuts t x, o ∈ withOverrides t (keyOutputs customs slot a) := by
+  have hb := keyouts_complete customs slot a x h
+  exact ⟨withOverrides_go t _ [] x (Or.inr (Or.inl hb)),
+         fun o ho => withOverrides_go t _ [] o (Or.inr (Or.inr ⟨x, hb, ho⟩))⟩
+
+example : withOverrides (Override.Overrides.new [{ inKey := 45, outKey := 21, inMods := [42], outMods := [] }])
+    (keyOutputs [] 30 (.keyCode 45)) = [45, 21] := by decide
+
 /-! ### What a repeat event is forwarded as -/
 
 theorem writeRepeat_out (k : KState) (kc : Nat) :
